@@ -34,10 +34,13 @@ class FakeLocale:
     LC_ALL = locale.LC_ALL
     Error = locale.Error
 
-    def __init__(self, de, en_us, it, other):
+    def __init__(self, de, en_us, it, other, initial=(None, None)):
         self.ok = dict(de=de, en_US=en_us, it_IT=it)
         self.other = other
-        self.cur = (None, None)
+        if initial[0] in self.ok:
+            self.ok[initial[0]] = True        # the locale the process is already in is necessarily installed
+        self.initial = initial
+        self.cur = initial
         self.calls = 0
 
     def _supported(self, value):
@@ -46,6 +49,8 @@ class FakeLocale:
         name = value if isinstance(value, str) else value[0]
         if not isinstance(name, str):
             raise TypeError('locale name')
+        if name == self.initial[0]:
+            return True                       # the locale the process is already in is necessarily installed
         for k, v in self.ok.items():
             if name.startswith(k):
                 return v
@@ -62,7 +67,14 @@ class FakeLocale:
             raise TypeError('Locale must be None, a string, or an iterable of two strings -- language code, encoding.')
         if not self._supported(value):
             raise locale.Error('unsupported locale setting')
-        self.cur = (None, None) if value in ((None, None), 'C') else (value if isinstance(value, tuple) else (value, None))
+        if value in ((None, None), 'C'):
+            self.cur = (None, None)
+        elif isinstance(value, tuple):
+            self.cur = value
+        elif '.' in value:
+            self.cur = tuple(value.split('.', 1))      # getlocale() reports (language, encoding)
+        else:
+            self.cur = (value, 'UTF-8')
         return value
 
     def strcoll(self, a, b):
@@ -72,8 +84,8 @@ class FakeLocale:
         return a
 
 
-def _history(key1, uri1, key2, uri2, de, en_us, it, other):
-    fake = FakeLocale(de, en_us, it, other)
+def _history(key1, uri1, key2, uri2, de, en_us, it, other, initial=(None, None)):
+    fake = FakeLocale(de, en_us, it, other, initial)
     saved = coll.locale
     coll.locale = fake
     env_before = dict(os.environ)
@@ -84,10 +96,10 @@ def _history(key1, uri1, key2, uri2, de, en_us, it, other):
                 outs.append(L(TOK[key].evaluate(XPathContext(item=1, variables={'a': 'x', 'b': 'y', 'c': uri}))))
             except ElementPathError as e:
                 outs.append(err_code(e))
-            if coll._locale_collate_lock.locked() or fake.cur != (None, None):
+            if coll._locale_collate_lock.locked() or fake.cur != initial:
                 return False
         # the second evaluation alone, on a fresh stub with the same configuration, gives the same answer
-        fake2 = FakeLocale(de, en_us, it, other)
+        fake2 = FakeLocale(de, en_us, it, other, initial)
         coll.locale = fake2
         try:
             alone = L(TOK[key2].evaluate(XPathContext(item=1, variables={'a': 'x', 'b': 'y', 'c': uri2})))
@@ -148,3 +160,23 @@ def entities_rejected(pi: int, frag: bool) -> bool:
     except ElementPathError:
         return True
     return False
+
+
+# --- added after round-2 seeded changes: the process locale may already be the one a collation asks for -------------------------------
+
+INITIALS = ((None, None), ('it_IT', 'UTF-8'), ('de', 'UTF-8'), ('C', 'UTF-8'), ('en_US', 'UTF-8'))
+_SRC_I = '''
+@ob(budget=90, family='collation-history-initial', bound={bound!r},
+    funcs=[C + ':CollationManager.__enter__/__exit__', C + ':_locale_collate_lock'])
+def history_initial_{n}(de: bool, en_us: bool, it: bool, other: bool, ii: int) -> bool:
+    """
+    pre: 0 <= ii <= 4
+    post: _
+    """
+    return _history({k1!r}, {u1!r}, {k2!r}, {u2!r}, de, en_us, it, other, INITIALS[ii])
+'''
+for _n, (_u1, _u2) in enumerate((('it_IT.UTF-8', 'it_IT.UTF-8'), ('http://www.w3.org/2013/collation/UCA?lang=de;fallback=no', 'it_IT.UTF-8'),
+                                 ('http://www.w3.org/2013/collation/UCA?lang=it_IT.UTF-8', 'http://www.w3.org/2013/collation/UCA?lang=de;fallback=yes'),
+                                 ('http://www.w3.org/2013/collation/UCA?lang=C', 'http://www.w3.org/2013/collation/UCA?lang=C'))):
+    define(_SRC_I.format(n=_n, k1='compare', u1=_u1, k2='contains', u2=_u2,
+                         bound='history [compare with %s; contains with %s] with the process LC_COLLATE initially one of 5 locales (chosen by the solver) under every installed-locale configuration: lock free and LC_COLLATE restored' % (_u1, _u2)), globals())
